@@ -297,6 +297,30 @@ impl<'a> Sc<'a> {
         let ops = &self.prog.threads[t];
         let pc = st.pc[t] as usize;
         if pc >= ops.len() {
+            // handles still owned by the thread are dropped at its end, one at a time (each
+            // decrement is a step of its own: other threads can observe the counts in between)
+            if let Some(x) = (0..st.arc_cnt.len()).find(|&x| st.handles[t][x] > 0) {
+                // (guards are released first, see below: the interpreter drops guards before handles)
+                let holds_lock = st.mtx_owner.iter().any(|&o| o == t as i8)
+                    || st.rw_writer.iter().any(|&o| o == t as i8)
+                    || st.rw_readers.iter().any(|&r| r & (1 << t) != 0);
+                if !holds_lock {
+                    let mut s = st.clone();
+                    s.handles[t][x] -= 1;
+                    s.arc_cnt[x] -= 1;
+                    Self::rel(&mut s.ck, t, |c| &mut c.arc[x], true, true);
+                    if s.arc_cnt[x] == 0 {
+                        Self::acq(&mut s.ck, t, |c| c.arc[x], true, true);
+                        s.arc_payload_drops[x] += 1;
+                        let l = self.arc_loc(x as u8);
+                        let r = Self::access(&mut s.ck, t, l, false);
+                        races.0 |= r.0;
+                        races.1 |= r.1;
+                    }
+                    out.push(Step::Hidden(s));
+                    return;
+                }
+            }
             // exit step: release guards, drop receiver, become joinable
             let mut s = st.clone();
             for m in 0..s.mtx_owner.len() {
